@@ -282,8 +282,8 @@ def rule_u4(F):
 
 
 def rule_u5(F):
-    r = RuleResult("C06.U5", "every range given to ariadne Label::new / Report::build is a Span::character_range", floor=5)
-    bodies = [F.body(p) for p in F.paths() if p.startswith("pipeline::RotoReport::write") or "RotoReport>::write" in p]
+    r = RuleResult("C06.U5", "every range given to ariadne Label::new / Report::build is a Span::character_range", floor=3)
+    bodies = [F.body(p) for p in F.paths() if p.startswith("pipeline::RotoReport::") or "RotoReport>::write" in p]  # write and its private helpers
     bodies = [b for b in bodies if b is not None and b.def_kind != "Closure"]
     if not bodies:
         r.missing("pipeline::RotoReport::write")
@@ -300,7 +300,7 @@ def rule_u5(F):
                     tup = a
             if tup is None:
                 continue
-            rng = hir.strip(tup["elems"][1])
+            rng = follow(hir.LocalDefs(b.hir), tup["elems"][1])  # through `let range = span.character_range(..);`
             ok = rng.get("k") == "mcall" and rng["m"] == "character_range"
             what = "Label::new" if "Label" in d else "Report::build"
             r.inst("%s #%d" % (what, len(r.instances)), {"call": d, "range": hir.result_desc(rng)})
@@ -581,8 +581,8 @@ def rule_u8(F):
     """A label is (file name, character range).  The byte span is converted to characters with a text: that text must be the
     contents of the very file the span lies in - the same span expression selects the file name, is converted, and selects the
     text.  (A type error can carry labels in other files than the error itself.)"""
-    r = RuleResult("C06.U8", "every span is converted to a character range with the text of the file that the span itself cites", floor=5)
-    bodies = [F.body(p) for p in F.paths() if p.startswith("pipeline::RotoReport::write") or "RotoReport>::write" in p]
+    r = RuleResult("C06.U8", "every span is converted to a character range with the text of the file that the span itself cites", floor=3)
+    bodies = [F.body(p) for p in F.paths() if p.startswith("pipeline::RotoReport::") or "RotoReport>::write" in p]  # write and its private helpers
     bodies = [b for b in bodies if b is not None and b.def_kind != "Closure"]
     if not bodies:
         r.missing("pipeline::RotoReport::write")
